@@ -209,7 +209,7 @@ package op
 //@ define validConv(x) x == ParallelKey || x == RelativeKey || x == DominantKey || x == SubDominantKey
 //@ define flips(x) x == ParallelKey || x == RelativeKey
 //@ define shift(x, minor) ite(x == DominantKey, 7, ite(x == SubDominantKey, 5, ite(x == ParallelKey, 0, ite(minor, 3, 9))))
-//@ define keysAt(m, minor, semi) forall(k, Key, dom(m.scales, k) == (supported(k) && k.Minor == minor && spec.fmod(ksemi(k) - semi, 12) == 0))
+//@ define keysAt(m, minor, semi) forall(k, Key, dom(m.scales, k) == (supported(k) && k.Minor == minor && spec.fmod(ksemi(k), 12) == spec.fmod(semi, 12)))
 //@ func lemmaC14Step returns (m, err)
 //@   enumerate key in keySignatures
 //@   requires wfCOF(c) && validConv(conv)
@@ -349,3 +349,31 @@ package op
 //@   ensures !cont ==> rErr == nil && keysAt(m, k.Minor != flips(x), ksemi(k) + shift(x, k.Minor))
 //@   ensures !cont ==> memberOK(m)
 //@   ensures cont ==> rErr != nil && m == old(m)
+//@   ensures captured("jump$1") == ite(cont, 0, 1)
+
+// ---- a chain of conversions (C14) ----
+//@ define minorAt(n) spec.chainMinor(backing(cc), offset(cc), n, key.Minor)
+//@ define semiAt(n) ksemi(key) + spec.chainSemi(backing(cc), offset(cc), n, key.Minor)
+//@ define keysIn(m, minor, semi) forall(k, Key, dom(m.scales, k) ==> supported(k) && k.Minor == minor && spec.fmod(ksemi(k), 12) == spec.fmod(semi, 12))
+//@ func KeyConversionChain.Convert returns (r, err)
+//@   allocs Scale, ScaleNote, map[Key]*Scale, map[Key]bool, []Iface, []*Scale
+//@   requires wfCOF(c) && forall(i, 0, len(cc), validConv(cc[i]))
+//@   ensures (err == nil) == supported(key)
+//@   ensures err == nil ==> keysIn(r, minorAt(len(cc)), semiAt(len(cc)))
+//@   ensures err == nil ==> ptrsOK(r)
+//@   ensures err == nil ==> nonEmpty(r)
+//@   ensures err == nil && len(cc) > 0 ==> keysAt(r, minorAt(len(cc)), semiAt(len(cc)))
+//@   loop 0 allocs map[Key]*Scale, map[Key]bool, []Iface
+//@   loop 0 modifies m, rErr
+//@   loop 0 invariant 0 - 1 <= rangeindex && rangeindex < len(cc) && wfCOF(c) && supported(key)
+//@   loop 0 invariant keysIn(m, minorAt(rangeindex + 1), semiAt(rangeindex + 1))
+//@   loop 0 invariant ptrsOK(m)
+//@   loop 0 invariant nonEmpty(m)
+//@   loop 0 invariant rangeindex >= 0 ==> keysAt(m, minorAt(rangeindex + 1), semiAt(rangeindex + 1))
+//@   loop util.Set.All$1/0 allocs map[Key]*Scale, map[Key]bool, []Iface
+//@   loop util.Set.All$1/0 modifies m, rErr, jump$1
+//@   loop util.Set.All$1/0 invariant wfCOF(c) && supported(key) && captured("jump$1") == 0 && rangecount() == 0 && forall(k, Key, !rangeseen(k))
+//@   loop util.Set.All$1/0 invariant keysIn(m, minorAt(captured("i")), semiAt(captured("i")))
+//@   loop util.Set.All$1/0 invariant ptrsOK(m)
+//@   loop util.Set.All$1/0 invariant nonEmpty(m)
+//@   loop util.Set.All$1/0 invariant forall(k, Key, rangedom(k) == dom(m.scales, k))
